@@ -725,7 +725,9 @@ func (h *hintMgr) getCollisionGC(ki *KeyInfo) (it *HintItem, ChunkID int, collis
 	if !collision {
 		// only in mem, in new hints buffers after gc begin
 		it, ChunkID, collision = h.getItemCollision(ki.KeyHash, ki.StringKey)
-	} else {
+	} else if it != nil {
+		// (it == nil: the hash is known to collide, but under other keys only;
+		// the caller then keeps the record as a conservative guess)
 		ChunkID = it.Pos.ChunkID
 	}
 	return
